@@ -622,9 +622,10 @@ class Executor:
         self.install_open(None)
         old = sys.stdout, sys.stderr
         sys.stdout, sys.stderr = Recorder(out, "o"), Recorder(out, "e")
-        f = N.File(name)
+        f = None
         self.arm_wall()
         try:
+            f = N.File(name)
             toks = list(N.Lexer(f))
             res["outcome"] = "verdict"
             res["ntokens"] = len(toks)
@@ -670,9 +671,10 @@ class Executor:
         sys.stdout, sys.stderr = Recorder(out, "o"), Recorder(out, "e")
         if self.registry is None or op.get("fresh_registry"):
             self.registry = ns.Registry()
-        f = ns.File(name)
+        f = None
         self.arm_wall()
         try:
+            f = ns.File(name)
             tokens = list(ns.Lexer(f))
             res["ntokens"] = len(tokens)
             context = ns.Context(f, tokens, op.get("debug", 0), op.get("R"))
@@ -848,6 +850,16 @@ class Executor:
                     if fault["kind"] == "missing":
                         raise FileNotFoundError(2, "No such file or directory: 'git'")
                     return result(128, "", "fatal: simulated git failure\n")
+                arg_max = (git or {}).get("arg_max")
+                if arg_max is not None and sum(len(os.fsencode(c)) + 1 for c in cmd) > arg_max:
+                    # execve refuses an argument vector larger than the limit derived from the stack size (ulimit -s)
+                    ex.ev("git", len(cmd), "e2big")
+                    raise OSError(7, "Argument list too long", cmd[0])
+                quote = True
+                while len(cmd) > 2 and cmd[1] == "-c":        # git's global `-c key=value` options
+                    if cmd[2].lower() == "core.quotepath=false":
+                        quote = False
+                    cmd = [cmd[0]] + cmd[3:]
                 need = (git or {}).get("needs_env") or {}
                 if need:
                     # this repository is only found through the caller's environment (GIT_DIR / GIT_WORK_TREE, as under a hook
@@ -860,8 +872,14 @@ class Executor:
                 if len(cmd) < 2 or os.path.basename(cmd[0]) != "git" or cmd[1] != "check-ignore":
                     ex.ev("git", [ex.relpath(c) for c in cmd[1:]], "unsupported")
                     return result(128, "", "fatal: not a git repository (nsim SimGit models check-ignore only)\n")
-                flags = [a for a in cmd[2:] if a.startswith("-") and a != "--"]
-                paths = [a for a in cmd[2:] if not a.startswith("-")]
+                rest = cmd[2:]
+                if "--" in rest:
+                    k9 = rest.index("--")
+                    flags = [a for a in rest[:k9] if a.startswith("-")]
+                    paths = [a for a in rest[:k9] if not a.startswith("-")] + rest[k9 + 1:]
+                else:
+                    flags = [a for a in rest if a.startswith("-")]
+                    paths = [a for a in rest if not a.startswith("-")]
                 z = "-z" in flags
                 if "--stdin" in flags:
                     data = kw.get("input")
@@ -885,9 +903,9 @@ class Executor:
                     for x, ig, r in hit:
                         if verbose:
                             pat = ("!" if r["neg"] else "") + "/" + r["path"]
-                            out += f".gitignore:{r.get('line', 1)}:{pat}\t" + (x + "\0" if z else git_quote(x) + "\n")
+                            out += f".gitignore:{r.get('line', 1)}:{pat}\t" + (x + "\0" if z else (git_quote(x) if quote else x) + "\n")
                         else:
-                            out += (x + "\0") if z else (git_quote(x) + "\n")
+                            out += (x + "\0") if z else ((git_quote(x) if quote else x) + "\n")
                 return result(rc, out)
 
             def __getattr__(self, a):
@@ -935,9 +953,24 @@ class Executor:
 
         old = sys.stdout, sys.stderr, sys.argv, os.getcwd()
         saved_env = {}
-        for k2, v2 in ((git or {}).get("needs_env") or {}).items():
+        ambient = dict((git or {}).get("needs_env") or {})
+        ambient.update(op.get("env") or {})        # S10: ambient environment variables of the process (COLUMNS, TZ, NO_COLOR ...)
+        for k2, v2 in ambient.items():
             saved_env[k2] = os.environ.get(k2)
             os.environ[k2] = v2
+        if "TZ" in ambient:
+            import time as _time
+            _time.tzset()
+        saved_rlimit = None
+        if op.get("fd_headroom") is not None:
+            # S10: the descriptor limit of the process (ulimit -n), expressed as head-room over what is open right now
+            import resource
+            saved_rlimit = resource.getrlimit(resource.RLIMIT_NOFILE)
+            try:
+                now = len(os.listdir("/proc/self/fd"))
+            except OSError:
+                now = 16
+            resource.setrlimit(resource.RLIMIT_NOFILE, (min(now + int(op["fd_headroom"]), saved_rlimit[0]), saved_rlimit[1]))
         # S6: what standard output is: a lenient recorder (default), a strict UTF-8 stream, or closed (file descriptor 1 was
         # closed when the process started: Python sets sys.stdout to None and print() does nothing)
         sys.stdout, sys.stderr = (None if stdout_mode == "closed" else Recorder(out, "o", strict=stdout_mode == "strict")), Recorder(out, "e")
@@ -974,11 +1007,17 @@ class Executor:
         finally:
             self.disarm_wall()
             sys.stdout, sys.stderr, sys.argv = old[0], old[1], old[2]
+            if saved_rlimit is not None:
+                import resource
+                resource.setrlimit(resource.RLIMIT_NOFILE, saved_rlimit)
             for k2, v2 in saved_env.items():
                 if v2 is None:
                     os.environ.pop(k2, None)
                 else:
                     os.environ[k2] = v2
+            if "TZ" in ambient:
+                import time as _time
+                _time.tzset()
             try:
                 os.chdir(old[3])
             except Exception:
